@@ -153,6 +153,13 @@ func (v *Verifier) callFunc(st *State, call *ssa.CallCommon, fn *ssa.Function, b
 		}
 	}
 	if fc != nil && !fc.Inline {
+		// a closure called under its own contract: the contract speaks about the captured variables
+		v.pendingFree = nil
+		for i, fv := range fn.FreeVars {
+			if i < len(bindings) {
+				v.pendingFree = append(v.pendingFree, freeBinding{fv.Name(), bindings[i], fv.Type()})
+			}
+		}
 		res := v.applyContract(st, fc, fn.Signature, v.paramNames(fn, fc), args, ins, shortKey(key))
 		k(st, res)
 		return
@@ -164,7 +171,10 @@ func (v *Verifier) callFunc(st *State, call *ssa.CallCommon, fn *ssa.Function, b
 	local := fn.Parent() != nil && v.isAncestorOrSelf(fn.Parent())
 	if (fc != nil && fc.Inline) || local {
 		if len(body.Blocks) > 0 && !v.e.info(body).hasLoop && !v.onStack(st, body) && st.top().depth < 8 {
-			v.inline(st, body, bindings, args, k)
+			// a generic body inlined for an instantiation: results take the instantiated types
+			rt := resultType(call.Signature())
+			k2 := func(st2 *State, res Value) { k(st2, v.coerceTo(res, rt)) }
+			v.inline(st, body, bindings, args, k2)
 			return
 		}
 		if fc != nil && fc.Inline {
@@ -270,6 +280,7 @@ func (v *Verifier) calleeEnv(st *State, fn *ssa.Function, fc *FuncContract, fnv 
 // applyContract: assert requires, havoc footprint, assume ensures.
 func (v *Verifier) applyContract(st *State, fc *FuncContract, sig *types.Signature, names []string, args []Value, ins ssa.Instruction, what string) Value {
 	env := &Env{v: v, vars: map[string]Value{}, pkgPath: fc.PkgPath}
+	env.freeVars, v.pendingFree = v.pendingFree, nil
 	for i, n := range names {
 		if i < len(args) {
 			env.vars[n] = args[i]
@@ -348,7 +359,13 @@ func (v *Verifier) bindResults(env *Env, sig *types.Signature, fc *FuncContract,
 }
 
 func (v *Verifier) callInvoke(st *State, call *ssa.CallCommon, recv Value, args []Value, ins ssa.Instruction, k func(*State, Value)) {
-	v.checkNonNil(st, recv.L[0], "invoke "+describe(call.Value)+"."+call.Method.Name(), ins.Pos())
+	if _, isTP := call.Value.Type().(*types.TypeParam); isTP {
+		// a value of type-parameter type always has a concrete dynamic type: the call itself cannot
+		// fail on a nil interface (a nil pointer receiver is the callee's business)
+		st.assume(Not(Eq(recv.L[0], IntLit(0))))
+	} else {
+		v.checkNonNil(st, recv.L[0], "invoke "+describe(call.Value)+"."+call.Method.Name(), ins.Pos())
+	}
 	sig := call.Method.Type().(*types.Signature)
 	// devirtualise when the dynamic type is a literal
 	if iv, ok := recv.L[0].IsInt(); ok {
@@ -546,7 +563,7 @@ func (v *Verifier) doAppend(st *State, s, t Value, stype types.Type, ins ssa.Ins
 		if nv, ok := n.IsInt(); ok && nv.IsInt64() && nv.Int64() <= 8 {
 			for j := int64(0); j < nv.Int64(); j++ {
 				ev := st.loadAtRaw(t.L[0], Add(t.L[1], IntLit(j*es)), elem)
-				st.storeAt(blk, Add(s.L[1], Mul(Add(s.L[2], IntLit(j)), IntLit(es))), ev)
+				st.storeAt(blk, Add(s.L[1], strideOf(Add(s.L[2], IntLit(j)), int64(es))), ev)
 			}
 			return
 		}
@@ -559,8 +576,8 @@ func (v *Verifier) doAppend(st *State, s, t Value, stype types.Type, ins ssa.Ins
 			src := Select(st.memOf(kd), t.L[0])
 			fresh := v.e.sy.Fresh("app", ArraySort(SInt, kd.Sort()))
 			i := v.e.sy.Fresh("i", SInt)
-			base := Add(s.L[1], Mul(s.L[2], IntLit(es)))
-			end := Add(base, Mul(n, IntLit(es)))
+			base := Add(s.L[1], strideOf(s.L[2], int64(es)))
+			end := Add(base, strideOf(n, int64(es)))
 			st.assumeTagged(Forall([]*Term{i}, Ite(And(Ge(i, base), Lt(i, end)),
 				Eq(mk("select", kd.Sort(), fresh, i), mk("select", kd.Sort(), src, Add(t.L[1], Sub(i, base)))),
 				Eq(mk("select", kd.Sort(), fresh, i), mk("select", kd.Sort(), inner, i)))), "append")
@@ -933,7 +950,9 @@ func (v *Verifier) checkFrame(st *State, addr, val Value, p token.Pos, addrExpr 
 		if !ok {
 			continue
 		}
-		if loc.whole {
+		if loc.whole && loc.rangeLen != nil {
+			allowed = append(allowed, And(Eq(blk, loc.blk), Ge(addr.L[1], loc.off), Lt(addr.L[1], Add(loc.off, loc.rangeLen))))
+		} else if loc.whole {
 			allowed = append(allowed, Eq(blk, loc.blk))
 		} else {
 			allowed = append(allowed, And(Eq(blk, loc.blk), Ge(addr.L[1], loc.off), Lt(addr.L[1], Add(loc.off, IntLit(int64(loc.size))))))
@@ -1031,6 +1050,7 @@ type loopEffects struct {
 	allocs    []*ssa.Alloc
 	lockCalls []*ssa.Call // Lock / Wait calls: guarded fields of the owner change
 	appends   []ssa.Value // first arguments of append calls: their backing array may be written
+	ghosts    []string    // ghost variables modified by contracted callees
 }
 
 func rootOfAddr(v ssa.Value) ssa.Value {
@@ -1098,6 +1118,10 @@ func (v *Verifier) loopEffectsOf(li *LoopInfo) *loopEffects {
 							continue
 						}
 					}
+				}
+				if gs, ok := v.ghostOnlyModifies(&ins.Call); ok {
+					eff.ghosts = append(eff.ghosts, gs...)
+					continue
 				}
 				if !v.callIsPure(&ins.Call) {
 					// a call through a function value modifies only what its arguments reach (see dispatchCall)
@@ -1299,6 +1323,21 @@ func (v *Verifier) havocLoop(st *State, li *LoopInfo) {
 				st.havocAll()
 			}
 		}
+		// ghost variables written by the contracts of the calls in the loop body
+		seenG := map[string]bool{}
+		for _, g := range eff.ghosts {
+			if seenG[g] {
+				continue
+			}
+			seenG[g] = true
+			if gv, ok := v.e.ct.GhostVars[g]; ok {
+				if t, err := v.e.resolveType(gv.Type, gv.PkgPath); err == nil {
+					st.storeAt(v.e.ghostBlock(g), IntLit(0), st.freshValue("lp_"+g, t))
+				} else {
+					st.havocAll()
+				}
+			}
+		}
 		for _, lc := range eff.lockCalls {
 			v.havocForLockCall(st, lc)
 		}
@@ -1352,6 +1391,9 @@ func (v *Verifier) checkPost(st *State, r *ssa.Return, res Value) {
 		v.ghostAssign(st, env, ga)
 	}
 	for i, cl := range v.fc.Ensures {
+		if strings.HasPrefix(cl.Label, "def-") {
+			continue // definitional clause: it introduces a specification function as "what this function returns"
+		}
 		t := v.evalBoolIn(st, env, cl)
 		v.oblige(st, "post", clauseLabel(cl, i), t, r.Pos(), cl)
 	}
@@ -1515,4 +1557,51 @@ func (v *Verifier) framedInv(st *State, named *types.Named, tc *TypeContract, wh
 		}
 		v.obs = append(v.obs, ob)
 	}
+}
+
+// coerceTo re-types a value computed over opaque type parameters to the instantiated type: zero
+// values of an opaque parameter become zero values of the actual kind.
+func (v *Verifier) coerceTo(val Value, t types.Type) Value {
+	lay := v.e.lay.Of(t)
+	if len(lay) != len(val.L) {
+		return val
+	}
+	out := Value{T: t, L: make([]*Term, len(val.L)), clo: val.clo}
+	for i, sl := range lay {
+		l := val.L[i]
+		if l.sort != sl.K.Sort() {
+			if iv, ok := l.IsInt(); ok && iv.Sign() == 0 && sl.Role != ROpaq {
+				l = v.e.zeroLeaf(sl)
+			}
+			// otherwise the leaf keeps the sort of the actual type argument (the expected type is
+			// itself an opaque type parameter of an enclosing generic body)
+		}
+		out.L[i] = l
+	}
+	return out
+}
+
+// ghostOnlyModifies: the callee's contract modifies nothing but ghost variables.
+func (v *Verifier) ghostOnlyModifies(c *ssa.CallCommon) ([]string, bool) {
+	var fc *FuncContract
+	if c.IsInvoke() {
+		fc = v.e.ct.Funcs[v.ifaceKey(c.Method)]
+	} else if fn := c.StaticCallee(); fn != nil {
+		fc = v.e.ct.Funcs[funcKey(fn)]
+	}
+	if fc == nil || fc.Inline || fc.ModAll || len(fc.Modifies) == 0 {
+		return nil, false
+	}
+	var out []string
+	for _, m := range fc.Modifies {
+		id, ok := m.(CIdent)
+		if !ok {
+			return nil, false
+		}
+		if _, isGhost := v.e.ct.GhostVars[id.Name]; !isGhost {
+			return nil, false
+		}
+		out = append(out, id.Name)
+	}
+	return out, true
 }
